@@ -3606,6 +3606,10 @@ class _CacheWrapper:
     def __init__(self, immutable_warranty: str = 'pickle'):
         self._serialize, self._deserialize = _get_serialize_and_deserialize(
             immutable_warranty)
+        if immutable_warranty == 'copy':
+            # The identity would store the object that is handed to the
+            # user (CacheDataset returns the value on a cache miss).
+            self._serialize = deepcopy
         self.cache = {}
 
     def __getitem__(self, item):
